@@ -477,9 +477,9 @@ func (g G) exprOfType(t cty.Type, env exprEnv, depth int) string {
 	if (t.IsListType() || t.IsSetType() || t.IsMapType()) && g.Chance(10) {
 		src := g.exprOfType(cty.List(cty.String), env, depth-1)
 		if t.IsMapType() {
-			return "{for k, v in " + src + " : k => " + Pick(g, []string{"v", "var.a", "upper(v)"}) + Pick(g, []string{"", "...", "..."}) + Pick(g, []string{"", " if v != \"\""}) + "}"
+			return "{for k, v in " + src + " : k => " + Pick(g, []string{"v", "var.a", "upper(v)"}) + Pick(g, []string{"", "...", "..."}) + Pick(g, []string{"", " if v != \"\"", " if v > 10", " if !false"}) + "}"
 		}
-		return "[for v in " + src + " : " + Pick(g, []string{"v", "var.a", "v.ab", `"${v}-x"`}) + Pick(g, []string{"", " if var.ab"}) + "]"
+		return "[for v in " + src + " : " + Pick(g, []string{"v", "var.a", "v.ab", `"${v}-x"`}) + Pick(g, []string{"", " if var.ab", " if true", " if v != 3 && var.ab"}) + "]"
 	}
 	// collection / object constructors with nested (typed) expressions
 	if (t.IsListType() || t.IsSetType() || t.IsTupleType() || t.IsMapType() || t.IsObjectType()) && g.Chance(45) {
@@ -593,9 +593,9 @@ func (g G) exprOfType(t cty.Type, env exprEnv, depth int) string {
 		src := g.exprOfType(cty.List(cty.String), env, depth-1)
 		switch {
 		case t.IsMapType() || t.IsObjectType():
-			return "{for k, v in " + src + " : k => " + Pick(g, []string{"v", "var.a", "upper(v)"}) + Pick(g, []string{"", "", "..."}) + Pick(g, []string{"", " if v != \"\""}) + "}"
+			return "{for k, v in " + src + " : k => " + Pick(g, []string{"v", "var.a", "upper(v)"}) + Pick(g, []string{"", "", "..."}) + Pick(g, []string{"", " if v != \"\"", " if v > 10", " if !false"}) + "}"
 		default:
-			return "[for v in " + src + " : " + Pick(g, []string{"v", "var.a", "v.ab", `"${v}-x"`}) + Pick(g, []string{"", " if var.ab"}) + "]"
+			return "[for v in " + src + " : " + Pick(g, []string{"v", "var.a", "v.ab", `"${v}-x"`}) + Pick(g, []string{"", " if var.ab", " if true", " if v != 3 && var.ab"}) + "]"
 		}
 	case 9: // index
 		return par(g.exprOfType(cty.List(t), env, depth-1)) + "[" + Pick(g, []string{"0", "var.a", "count.index", `"k"`, "count.index + 1", "var.a % 2", "var.ab ? 0 : 1", "(1 + 1)"}) + "]"
